@@ -244,7 +244,17 @@ def run(index, rep, tier):
             for f in fs:
                 for c in calls_in(f.node):
                     if call_name(c) == name:
-                        return {k.arg: norm(k.value).replace("self.newick_reader.", "self.") for k in c.keywords if k.arg and k.arg not in ("taxon_namespace",)}
+                        # the yielder must read the options from the reader it wraps: `self.newick_reader.X` is read as the reader's
+                        # `self.X`; an attribute of the yielder itself is a separately kept copy (marked, so that it cannot compare equal)
+                        out = {}
+                        for k in c.keywords:
+                            if not k.arg or k.arg in ("taxon_namespace",):
+                                continue
+                            t = norm(k.value)
+                            if f.cls is not None and f.cls.name.endswith("Yielder"):
+                                t = t.replace("self.newick_reader.", "self.") if "self.newick_reader." in t else (("<yielder's own copy> " + t) if t.startswith("self.") else t)
+                            out[k.arg] = t
+                        return out
             return None
         for name in ("NexusTokenizer", "NexusTaxonSymbolMapper"):
             a, b = ctor_kw([rd, ti], name), ctor_kw([yd], name)
